@@ -39,6 +39,7 @@ import (
 
 	v1 "github.com/crossplane/crossplane/apis/apiextensions/v1"
 	"github.com/crossplane/crossplane/internal/controller/apiextensions/composite"
+	"github.com/crossplane/crossplane/internal/xcrd"
 )
 
 // ---------------------------------------------------------------- scenario types
@@ -1031,6 +1032,10 @@ func init() {
 		}
 		sort.Strings(items)
 		return "/-- key set (from, to, format) of the `conversions` table in composition_transforms.go -/\n" +
-			"def c10Conversions : List (String × String × String) := [\n  " + strings.Join(items, ",\n  ") + "]\n"
+			"def c10Conversions : List (String × String × String) := [\n  " + strings.Join(items, ",\n  ") + "]\n" +
+			"def c10LabelNamePrefix : String := " + leanStr(xcrd.LabelKeyNamePrefixForComposed) + "\n" +
+			"def c10LabelClaimName : String := " + leanStr(xcrd.LabelKeyClaimName) + "\n" +
+			"def c10LabelClaimNamespace : String := " + leanStr(xcrd.LabelKeyClaimNamespace) + "\n" +
+			"def c10AnnotationResourceName : String := " + leanStr(composite.AnnotationKeyCompositionResourceName) + "\n"
 	})
 }
